@@ -510,6 +510,15 @@ def rmul(a, b):
     b = z3.simplify(b) if not z3.is_rational_value(b) else b
     if z3.is_rational_value(a) or z3.is_rational_value(b) or not NONLINEAR_UF:
         return a * b
+    return umul(a, b)
+
+
+def umul(a, b):
+    """uninterpreted commutative product: arguments in a canonical order"""
+    ka = (a.decl().name() if z3.is_app(a) else '', a.get_id())
+    kb = (b.decl().name() if z3.is_app(b) else '', b.get_id())
+    if ka > kb:        # by head symbol first (stable across syntactically different arguments), then by term id
+        a, b = b, a
     return MUL(a, b)
 
 
